@@ -317,7 +317,7 @@ pub fn decode(target: &str, data: &[u8]) -> Vec<(&'static str, Value)> {
             let version_at = r.u8() % 4;
             // (read last, so that older corpus files decode as before)
             let self_parent = if r.u8() % 8 == 1 { Some(ids[r.below(n)]) } else { None };
-            let case = c15::Case { terms, parents, ann, version, version_at, defaults, self_parent, closing: None };
+            let case = c15::Case { terms, parents, ann, version, version_at, defaults, self_parent, closing: None, at_limit: None };
             vec![("C15", serde_json::to_value(case).unwrap())]
         }
         // base facts + edit script
